@@ -504,4 +504,19 @@ theorem Slice_to_builder_eq (H) (σ : State) (wf : WF σ) (self : Nat) (h : σ.h
   · have : ((σ.obj self).kind != -1) = true := by simpa using c0
     simp [c0, this, Py.Heap.result]
 
+/-! ### `Cell.get_data_bytes`: the heap-touching helper of `Cell.__init__` reads only -/
+
+/-- `Cell.get_data_bytes()` pads a COPY: it allocates one scratch array and leaves every existing bit container (in particular the one
+`self.bits` points to - the caller's own array for `Cell(bits, refs)`), every list and every object record as they were. -/
+theorem Cell_get_data_bytes_frame (H) (σ : State) (self : Nat) :
+    ∃ σ' v, Cell_get_data_bytes H σ self = some (σ', v) ∧
+      (∀ j, j < σ.nBit → σ'.bitBuf j = σ.bitBuf j) ∧ σ'.refBuf = σ.refBuf ∧ σ'.obj = σ.obj ∧ σ'.nObj = σ.nObj ∧ σ'.nRef = σ.nRef ∧
+      σ'.nBit = σ.nBit + 1 ∧ v = bitsToBytes (σ'.bitBuf σ.nBit) := by
+  unfold Cell_get_data_bytes
+  refine ⟨_, _, rfl, ?_, ?_, ?_, ?_, ?_, ?_, ?_⟩ <;>
+    by_cases hc : (σ.bitBuf (σ.obj self).bitsId).length % 8 ≠ 0 <;>
+    simp [Py.Heap.copyBits, Py.Heap.appendBit, Py.Heap.fillBits, State.allocB, State.setB, hc]
+  all_goals (intro j hj; have : j ≠ σ.nBit := by omega
+             simp [this])
+
 end TonVerif.Proofs.SrcHeap
